@@ -1,1 +1,100 @@
-fn main() {}
+//! SSE harness (tie K for C20): drives the REAL `oas3_gen_support::EventStream<serde_json::Value>`
+//! over a `reqwest::Response` whose body is a scripted chunk stream with `Pending` interleavings,
+//! polling by hand with a no-op waker.  One `{"op":"sse.run","in":{"script":[[bytes..]|"p",..]}}`
+//! per line in; `{"op","in","impl":[ "pending" | {"ok":v} | "jsonerr" | "sseerr" | "done", ..]}` out.
+use std::{
+  collections::VecDeque,
+  io::{BufRead, Write},
+  pin::Pin,
+  task::{Context, Poll},
+};
+
+use futures::{Stream, task::noop_waker};
+use oas3_gen_support::{EventStream, EventStreamError};
+use serde_json::{Value, json};
+
+enum Step {
+  Chunk(Vec<u8>),
+  Pending,
+}
+
+struct Script {
+  steps: VecDeque<Step>,
+}
+
+impl Stream for Script {
+  type Item = Result<bytes::Bytes, std::io::Error>;
+
+  fn poll_next(mut self: Pin<&mut Self>, _cx: &mut Context<'_>) -> Poll<Option<Self::Item>> {
+    match self.steps.pop_front() {
+      None => Poll::Ready(None),
+      Some(Step::Pending) => Poll::Pending,
+      Some(Step::Chunk(b)) => Poll::Ready(Some(Ok(bytes::Bytes::from(b)))),
+    }
+  }
+}
+
+fn run(script: &Value) -> Result<Value, String> {
+  let mut steps = VecDeque::new();
+  for s in script.as_array().ok_or("script")? {
+    match s {
+      Value::String(p) if p == "p" => steps.push_back(Step::Pending),
+      Value::Array(a) => steps.push_back(Step::Chunk(
+        a.iter().map(|n| n.as_u64().unwrap_or(0) as u8).collect(),
+      )),
+      _ => return Err("script item".into()),
+    }
+  }
+  let nsteps = steps.len();
+  let body = reqwest::Body::wrap_stream(Script { steps });
+  let resp = reqwest::Response::from(http::Response::new(body));
+  let mut es = EventStream::<Value>::from_response(resp);
+  let waker = noop_waker();
+  let mut cx = Context::from_waker(&waker);
+  let mut out = vec![];
+  // bounded: every poll consumes a script step or yields an item; items are bounded by bytes
+  let total: usize = script.as_array().unwrap().iter().map(|s| s.as_array().map_or(1, |a| a.len() + 1)).sum();
+  for _ in 0..(2 * (nsteps + total) + 8) {
+    match Pin::new(&mut es).poll_next(&mut cx) {
+      Poll::Pending => out.push(json!("pending")),
+      Poll::Ready(None) => {
+        out.push(json!("done"));
+        return Ok(Value::Array(out));
+      }
+      Poll::Ready(Some(Ok(v))) => out.push(json!({"ok": v})),
+      Poll::Ready(Some(Err(EventStreamError::JsonDeserialize { .. }))) => out.push(json!("jsonerr")),
+      Poll::Ready(Some(Err(EventStreamError::SseParse(_)))) => out.push(json!("sseerr")),
+    }
+  }
+  out.push(json!("no-end"));
+  Ok(Value::Array(out))
+}
+
+fn main() {
+  std::panic::set_hook(Box::new(|_| {}));
+  let stdin = std::io::stdin();
+  let stdout = std::io::stdout();
+  let mut out = std::io::BufWriter::new(stdout.lock());
+  for line in stdin.lock().lines() {
+    let Ok(line) = line else { break };
+    if line.trim().is_empty() {
+      continue;
+    }
+    let req: Value = match serde_json::from_str(&line) {
+      Ok(v) => v,
+      Err(e) => {
+        writeln!(out, "{}", json!({"err": format!("bad-json: {e}")})).unwrap();
+        continue;
+      }
+    };
+    let input = req["in"].clone();
+    let res = std::panic::catch_unwind(std::panic::AssertUnwindSafe(|| run(&input["script"])));
+    let impl_v = match res {
+      Ok(Ok(v)) => v,
+      Ok(Err(e)) => json!({"err": e}),
+      Err(_) => json!({"panic": true}),
+    };
+    writeln!(out, "{}", json!({"op": req["op"], "in": input, "impl": impl_v})).unwrap();
+  }
+  out.flush().unwrap();
+}
